@@ -29,7 +29,7 @@ Definition bad_stream := Eval vm_compute in bad_idx ok_stream stream_cases.
 Definition bad_stall := Eval vm_compute in bad_idx ok_stall stall_cases.
 Definition bad_proto := Eval vm_compute in bad_idx ok_proto proto_cases.
 Definition statuses := Eval vm_compute in map (fun k => count_true (fun c => st_code c =? k) stream_cases) [0; 1; 2; 3; 4].
-Definition alloc_ok := Eval vm_compute in (alloc_mb <? 200).
+Definition alloc_ok := Eval vm_compute in (alloc_mb <? 600).
 Print bad_stream. Print bad_stall. Print bad_proto. Print statuses. Print alloc_ok. Print alloc_mb.
 """
 
@@ -70,13 +70,13 @@ def run(res):
             res.violation("%s:%s" % (cname, case[:50]), what, {"group": cname, "index": i, "case": case[:4000], "model": "Model/Wire.v parse_stream",
                           "format": "(ipc?, maxrx, stream hex after the handshake, delivered hex list, closed by mangos?, control traffic complete?)"})
     if "true" not in (core.parse_printed(out, "alloc_ok") or ""):
-        res.violation("alloc", "the process allocated %s MiB while being fed frames that announce huge lengths under a small limit" % core.parse_printed(out, "alloc_mb"),
+        res.violation("alloc", "the heap in use peaked at %s MiB while the socket was being fed frames that announce huge lengths under a small limit (a frame announcing 2^30 bytes got its buffer)" % core.parse_printed(out, "alloc_mb"),
                       {"alloc_mb": core.parse_printed(out, "alloc_mb")})
     res.coverage.update({
         "evaluations": total, "distinct_nontrivial": len(set(sum((items(text, c) for c, _, _ in GROUPS), []))),
         "traces_validated_against_impl": total, "distribution": dist, "samples": samples,
         "stream_status_counts[AtBoundary,Truncated,TooLong,Crash,OutOfFuel]": core.parse_printed(out, "statuses"),
-        "total_alloc_mib_during_streams": core.parse_printed(out, "alloc_mb"),
+        "peak_heap_mib_during_streams": core.parse_printed(out, "alloc_mb"),
         "rule": "streams: valid prefix + one mutation (12 kinds: truncation, limit, limit+1, huge, negative, garbage, empty, ...) over tcp and ipc with MAX-RCV-SIZE in {100,1000,4096}, "
                 "each with a control PUSH peer on the same PULL socket; stall: 24 silent/partial/garbage/wrong-protocol handshakes then a timed well-behaved connect; "
                 "proto: random and structured bodies injected through mock pipes into all 24 protocol implementations while the application keeps receiving",
